@@ -420,6 +420,155 @@ func c04RealSub(name, dir string, qn, tn int) *engine.Sub {
 	}
 }
 
+type c04EpochCase struct {
+	Kind  string `json:"kind"`  // dlg | inv
+	Field string `json:"field"` // exp | nbf
+	Sec   int64  `json:"sec"`   // bound in Unix seconds
+}
+
+// c04EpochSub: decoded tokens whose bounds sit at "magic" Unix seconds (0, +/-1), which no
+// constructor can produce for a delegation; built with the harness' envelope assembler.
+func c04EpochSub() *engine.Sub {
+	return &engine.Sub{
+		Name: "decoded-bounds-near-epoch",
+		Rule: "well-signed delegations / invocations whose exp (or nbf) is Unix second -1, 0 or 1 (a present bound that happens to equal a zero value), decoded and probed 1 s / 1 ns before, on and after the bound and far away: a present bound is a bound; non-trivial = all",
+		Bound: func(string) string { return "{dlg.exp, dlg.nbf, inv.exp} x {-1, 0, 1} x 7 probes" },
+		Gen: func(tier string, emit func(any) bool) {
+			for _, kf := range [][2]string{{"dlg", "exp"}, {"dlg", "nbf"}, {"inv", "exp"}} {
+				for _, sec := range []int64{-1, 0, 1} {
+					if !emit(&c04EpochCase{kf[0], kf[1], sec}) {
+						return
+					}
+				}
+			}
+		},
+		NewCase: func() any { return &c04EpochCase{} },
+		Run: func(ctx *engine.Ctx, c any) {
+			cs := c.(*c04EpochCase)
+			p := c10BasePayload(cs.Kind, "ed25519")
+			key := fixtures.Get("ed25519", 0)
+			var es []kv
+			for _, e := range p.Payload {
+				switch {
+				case e.K == cs.Field:
+					es = append(es, kv{e.K, nInt(cs.Sec)})
+				case e.K == "exp":
+					es = append(es, kv{"exp", nNull()})
+				case e.K == "nbf", e.K == "iat":
+				default:
+					es = append(es, e)
+				}
+			}
+			sealed := assemble(key, sigPayloadNode(p.Header, p.Tag, nMap(es...)))
+			var valid func(time.Time) bool
+			if cs.Kind == "dlg" {
+				d, _, err := delegation.FromSealed(sealed)
+				if err != nil {
+					ctx.Outcome("rejected")
+					ctx.Failf(cs, "epoch-bound-rejected", "a delegation with %s=%d is rejected: %v", cs.Field, cs.Sec, err)
+					return
+				}
+				valid = d.IsValidAt
+			} else {
+				i, _, err := invocation.FromSealed(sealed)
+				if err != nil {
+					ctx.Outcome("rejected")
+					ctx.Failf(cs, "epoch-bound-rejected", "an invocation with %s=%d is rejected: %v", cs.Field, cs.Sec, err)
+					return
+				}
+				valid = i.IsValidAt
+			}
+			ctx.States(1)
+			ctx.Nontrivial(1)
+			b := time.Unix(cs.Sec, 0)
+			for _, at := range []time.Time{b.AddDate(-50, 0, 0), b.Add(-time.Second), b.Add(-time.Nanosecond), b, b.Add(time.Nanosecond), b.Add(time.Second), b.AddDate(50, 0, 0)} {
+				ctx.Eval(1)
+				ctx.Trans(1)
+				got := valid(at)
+				want := 0
+				switch {
+				case cs.Field == "exp" && at.After(b), cs.Field == "nbf" && at.Before(b):
+					want = -1
+				case !at.Equal(b):
+					want = 1
+				}
+				ctx.Outcome(fmt.Sprintf("valid=%v", got))
+				if got && want == -1 {
+					ctx.Failf(cs, "valid-outside-window/"+cs.Kind+"/"+cs.Field+"-at-epoch", "decoded %s with %s=%d is valid at %s", cs.Kind, cs.Field, cs.Sec, at.UTC().Format(time.RFC3339Nano))
+				}
+				if !got && want == 1 {
+					ctx.Failf(cs, "invalid-inside-window/"+cs.Kind+"/"+cs.Field+"-at-epoch", "decoded %s with %s=%d is invalid at %s", cs.Kind, cs.Field, cs.Sec, at.UTC().Format(time.RFC3339Nano))
+				}
+			}
+		},
+	}
+}
+
+type c04ExpiryCase struct {
+	Which string `json:"which"` // invocation | leaf | root
+}
+
+// c04AcrossExpirySub: the one sub-check that lets real time pass. A token that is allowed
+// now and whose chain expires in 1.5 s is checked again, on the SAME token value, after the
+// expiry. Only "allowed before, still allowed afterwards" is a violation; if the first check is
+// not allowed (slow machine) the case is inconclusive, so the verdict cannot depend on speed.
+func c04AcrossExpirySub() *engine.Sub {
+	return &engine.Sub{
+		Name:    "same-token-across-real-expiry",
+		Replays: 1,
+		Rule:    "ExecutionAllowed and ExecutionAllowedWithArgsHook on one invocation token whose invocation / leaf delegation / root delegation expires 1.5 s after construction: checked at once (expected allowed, otherwise inconclusive), then again on the same token 1 s after the expiry: must be denied (no memo of a time-dependent verdict); non-trivial = conclusive cases",
+		Bound:   func(string) string { return "3 expiring positions x 2 APIs, 2.5 s of real time" },
+		Gen: func(tier string, emit func(any) bool) {
+			for _, w := range []string{"invocation", "leaf", "root"} {
+				if !emit(&c04ExpiryCase{w}) {
+					return
+				}
+			}
+		},
+		NewCase: func() any { return &c04ExpiryCase{} },
+		Run: func(ctx *engine.Ctx, c any) {
+			cs := c.(*c04ExpiryCase)
+			chainInit()
+			const life = 1500 * time.Millisecond
+			start := time.Now()
+			var lo, ro []delegation.Option
+			var io []invocation.Option
+			switch cs.Which {
+			case "leaf":
+				lo = append(lo, delegation.WithExpirationIn(life))
+			case "root":
+				ro = append(ro, delegation.WithExpirationIn(life))
+			default:
+				io = append(io, invocation.WithExpirationIn(life))
+			}
+			ld := &sliceLoader{cids: []cid.Cid{cidPool[0], cidPool[1]}, toks: []*delegation.Token{mustDlg(1, 2, 0, "/a", nil, lo...), mustDlg(0, 1, 0, "/a", nil, ro...)}}
+			io = append(io, invocation.WithNonce(fixedNonce))
+			inv, err := invocation.New(prin(2), prin(0), "/a", []cid.Cid{cidPool[0], cidPool[1]}, io...)
+			if err != nil {
+				panic(err)
+			}
+			e1, e2 := bothVerdicts(inv, ld)
+			ctx.Eval(2)
+			ctx.States(1)
+			if e1 != nil || e2 != nil {
+				ctx.Outcome("inconclusive-first-check-denied")
+				return
+			}
+			ctx.Nontrivial(1)
+			time.Sleep(time.Until(start.Add(life + 1100*time.Millisecond)))
+			a1, a2 := bothVerdicts(inv, ld)
+			ctx.Eval(2)
+			ctx.Trans(2)
+			if a1 == nil || a2 == nil {
+				ctx.Outcome("still-allowed-after-expiry")
+				ctx.Failf(cs, "stale-verdict/allowed-after-"+cs.Which+"-expired", "the same invocation token is still allowed %.1f s after its %s expired (ExecutionAllowed: %v, WithArgsHook: %v)", time.Since(start.Add(life)).Seconds(), cs.Which, a1, a2)
+				return
+			}
+			ctx.Outcome("denied-after-expiry")
+		},
+	}
+}
+
 func C04() *engine.Check {
 	return &engine.Check{
 		Property: "C04",
@@ -428,6 +577,8 @@ func C04() *engine.Check {
 			c04SingleSub("sound"),
 			c04ChainSub("chain-time-bounds", "sound", 3, 5),
 			c04RealSub("real-clock", "sound", 3, 6),
+			c04EpochSub(),
+			c04AcrossExpirySub(),
 		},
 		Assumptions: []string{
 			"chain-level instants are injected through invocation.VerifTimeBoundAt (build tag verif), a one-line export of verifyTimeBoundAt; the real-clock sub-check covers the wiring of the time stage into ExecutionAllowed with bounds 10 years away from now",
